@@ -815,8 +815,12 @@ private theorem segmentsF_bounds (four : Bool) : ∀ (f : Nat) (bs : Bytes) (ss 
           | err => simp [hr] at h
           | panic => simp [hr] at h
 
-/-- **hops_bounded.** Clause "every iterator terminates", for the iterators of a
-RETURNED value: whatever octets an `AsPath` holds and whatever its ASN width,
+/-- **hops_bounded.** A bound on the COUNT of what the iterators of a RETURNED value
+yield (the arithmetic the clause "every iterator terminates" rests on; termination
+proper is not what this says: `AsPath.segmentsF` is defined by structural recursion
+on the octets, so "the iterator ends" is built into the model – a `PathSegments::next`
+that does not advance has no counterpart there and is caught by the harness' `pit`
+group with its `b + 1` item bound and the watchdog only): whatever octets an `AsPath` holds and whatever its ASN width,
 when `segments()` / `hops()` come to an end without a panic they have yielded at
 most `len / 2` segments whose `asns()` yield at most `len / 2` AS numbers in all,
 and at most `len / 2` hops (`len` = the number of value octets): no AS path
